@@ -270,10 +270,19 @@ def run(chk: core.Check, tier: str, seed: int) -> None:
         items = [core.enc_loc(next(it).location)]
         env_b = jp.JSONPathEnvironment()                         # a plain environment is constructed mid-iteration
 
+        from jsonpath_rfc9535.function_extensions import ExpressionType, FilterFunction  # noqa: PLC0415
+
+        class Never(FilterFunction):
+            arg_types = [ExpressionType.VALUE]
+            return_type = ExpressionType.LOGICAL
+
+            def __call__(self, _value):
+                return False
+
         class Other(jp.JSONPathEnvironment):
             def setup_function_extensions(self):
                 super().setup_function_extensions()
-                self.function_extensions["keep"] = probes.make_env(jp, [("keep", ["N"], "L")], []).function_extensions["keep"]
+                self.function_extensions["keep"] = Never()      # another environment's 'keep' answers differently
 
         env_c = Other()
         env_b.function_extensions["keep"] = env_c.function_extensions["keep"]
